@@ -29,6 +29,9 @@ type treeCase struct {
 	Dim int          `json:"dim"` // 2 or 3 (the third coordinate is ignored in 2D)
 	Pts [][3]float64 `json:"pts"`
 	Q   []treeQuery  `json:"q"`
+	// UnitLog2: points, query points and radii are in units of 2^UnitLog2 (exact: every comparison of distances
+	// keeps its outcome)
+	UnitLog2 int `json:"unit_log2,omitempty"`
 }
 
 func genTree(dim int) func(t *rapid.T) treeCase {
@@ -116,6 +119,9 @@ func genTree(dim int) func(t *rapid.T) treeCase {
 				q.R = gen.F(t, 0, 6, l+".r")
 			}
 			c.Q = append(c.Q, q)
+		}
+		if rapid.IntRange(0, 2).Draw(t, "rescaled") == 0 {
+			c.UnitLog2 = rapid.SampledFrom([]int{-60, -40, -30, -20, 20, 40}).Draw(t, "unit_log2")
 		}
 		return c
 	}
@@ -217,6 +223,21 @@ func (t tree2) d(p, q [3]float64) float64  { return c2(q).Dist(c2(p)) }
 func checkTree(c treeCase, o *kit.Obs) error {
 	if c.Dim != 2 && c.Dim != 3 {
 		return fmt.Errorf("%w: dim %d", kit.ErrInfra, c.Dim)
+	}
+	if c.UnitLog2 != 0 {
+		sc := func(p [3]float64) [3]float64 {
+			return [3]float64{math.Ldexp(p[0], c.UnitLog2), math.Ldexp(p[1], c.UnitLog2), math.Ldexp(p[2], c.UnitLog2)}
+		}
+		ps := make([][3]float64, len(c.Pts))
+		for i, p := range c.Pts {
+			ps[i] = sc(p)
+		}
+		qs := make([]treeQuery, len(c.Q))
+		for i, q := range c.Q {
+			qs[i] = treeQuery{P: sc(q.P), K: q.K, R: math.Ldexp(q.R, c.UnitLog2)}
+		}
+		c.Pts, c.Q = ps, qs
+		o.Label("rescaled")
 	}
 	pts := make([][3]float64, len(c.Pts))
 	for i, p := range c.Pts {
